@@ -942,3 +942,278 @@ func ruleEmptyLeafList(c *Ctx, r *Report) {
 		}
 	}
 }
+
+// ---- R-ANCHOR-GROUP (C06) --------------------------------------------------------------
+
+// ruleAnchorGroup: fixYangRegexp turns an implicitly anchored XSD pattern into ^…$. Anchors bind
+// tighter than '|', so the pattern body must be grouped on both first-rune branches: when the
+// anchor is added (pattern does not start with '^') and when the pattern brings its own '^'
+// (grouping may then be limited to patterns that contain '|').
+func ruleAnchorGroup(c *Ctx, r *Report) {
+	r.Rule("R-ANCHOR-GROUP", "util.fixYangRegexp opens a group after the leading anchor on both first-rune branches — unconditionally when it adds the '^' itself, and at least for patterns containing '|' when the pattern starts with '^' — and every group it opens sets the flag under which the closing ')' is written; otherwise ^ and $ bind to the first and last alternative only and values that merely start or end with an alternative are accepted", 2)
+	f := c.MustFunc(r, "util", "fixYangRegexp")
+	if f == nil {
+		return
+	}
+	info := f.Info()
+	pm := c.parentMap(f.File)
+	isWrite := func(n ast.Node, ch string) bool {
+		call, ok := n.(*ast.CallExpr)
+		if !ok || len(call.Args) != 1 {
+			return false
+		}
+		fn := FullName(Callee(info, call))
+		if !strings.HasSuffix(fn, "Buffer.WriteRune") && !strings.HasSuffix(fn, "Builder.WriteRune") && !strings.HasSuffix(fn, "Buffer.WriteByte") && !strings.HasSuffix(fn, "Builder.WriteByte") && !strings.HasSuffix(fn, "Buffer.WriteString") && !strings.HasSuffix(fn, "Builder.WriteString") {
+			return false
+		}
+		tv, ok := info.Types[call.Args[0]]
+		if !ok || tv.Value == nil {
+			return false
+		}
+		v := tv.Value.ExactString()
+		return v == fmt.Sprint(int(ch[0])) || strings.Trim(v, `"`) == ch
+	}
+	// the flag under which ')' is written.
+	closeFlags := map[types.Object]bool{}
+	ast.Inspect(f.Decl.Body, func(n ast.Node) bool {
+		if !isWrite(n, ")") {
+			return true
+		}
+		for _, ft := range c.FactsAt(f, n, false) {
+			if ft.Kind == "cond" && ft.Pos {
+				if id, ok := ast.Unparen(ft.Cond).(*ast.Ident); ok {
+					closeFlags[info.ObjectOf(id)] = true
+				}
+			}
+		}
+		return true
+	})
+	mentionsBar := func(e ast.Expr) bool {
+		found := false
+		var visit func(e ast.Node, depth int)
+		visit = func(e ast.Node, depth int) {
+			ast.Inspect(e, func(n ast.Node) bool {
+				switch x := n.(type) {
+				case *ast.CallExpr:
+					fn := FullName(Callee(info, x))
+					if (fn == "strings.Contains" || fn == "strings.ContainsRune" || fn == "strings.ContainsAny" || fn == "strings.IndexByte" || fn == "strings.IndexRune" || fn == "strings.Index") && len(x.Args) == 2 {
+						if v, ok := ConstOf(info, x.Args[1]); ok && (strings.Trim(v, `"`) == "|" || v == "124") {
+							found = true
+						}
+					}
+				case *ast.Ident:
+					if depth < 3 {
+						if d := singleDef(f, info.ObjectOf(x)); d != nil {
+							visit(d, depth+1)
+						}
+					}
+				}
+				return true
+			})
+		}
+		visit(e, 0)
+		return found
+	}
+	added, own := false, false
+	n := 0
+	ast.Inspect(f.Decl.Body, func(x ast.Node) bool {
+		if !isWrite(x, "(") {
+			return true
+		}
+		n++
+		key := fmt.Sprintf("util.fixYangRegexp:group-open#%d", n)
+		// the enclosing block sets a close flag.
+		sets := false
+		var blk *ast.BlockStmt
+		for p := pm[x]; p != nil; p = pm[p] {
+			if b, ok := p.(*ast.BlockStmt); ok {
+				blk = b
+				break
+			}
+		}
+		if blk != nil {
+			for _, s := range blk.List {
+				if as, ok := s.(*ast.AssignStmt); ok && len(as.Lhs) == 1 && len(as.Rhs) == 1 && closeFlags[ObjOf(info, as.Lhs[0])] {
+					if v, ok := ConstOf(info, as.Rhs[0]); ok && v == "true" {
+						sets = true
+					}
+				}
+			}
+		}
+		if !sets {
+			r.Bad(key, c.Pos(x.Pos()), "fixYangRegexp opens a group without setting the flag under which the closing ')' is written: the result does not compile, and a pattern that does not compile makes every value fail")
+			return true
+		}
+		first, notCaret, other, bar := false, false, false, false
+		for _, ft := range c.FactsAt(f, x, false) {
+			if ft.Kind != "cond" {
+				continue
+			}
+			s := types.ExprString(ft.Cond)
+			switch {
+			case ft.Pos && s == "i == 0":
+				first = true
+			case ft.Pos && s == "ch != '^'", !ft.Pos && s == "ch == '^'":
+				notCaret = true
+			case ft.Pos && s == "ch == '^'", !ft.Pos && s == "ch != '^'":
+			case ft.Pos && mentionsBar(ft.Cond):
+				bar = true
+			default:
+				other = true
+			}
+		}
+		switch {
+		case !first || other:
+			r.Und(key, c.Pos(x.Pos()), "a group is opened under conditions the rule does not recognise (expected i == 0, a test of ch against '^', and optionally a test that the pattern contains '|')")
+		case notCaret && !bar:
+			added = true
+			r.OK(key, c.Pos(x.Pos()), "group opened whenever the leading '^' is added by fixYangRegexp")
+		case notCaret && bar:
+			r.Bad(key, c.Pos(x.Pos()), "when fixYangRegexp adds the leading '^' it groups the pattern only if it contains '|': not wrong by itself, but the closing logic expects the group")
+		default:
+			own = true
+			if bar {
+				r.OK(key, c.Pos(x.Pos()), "group opened after the pattern's own '^' when the pattern contains '|'")
+			} else {
+				r.OK(key, c.Pos(x.Pos()), "group opened after the pattern's own '^'")
+			}
+		}
+		return true
+	})
+	if !added {
+		r.Bad("util.fixYangRegexp:group-open:anchor-added", c.Pos(f.Decl.Pos()), "fixYangRegexp adds '^' without opening a group: for a|b the result ^a|b$ accepts every value that starts with a or ends with b")
+	}
+	if !own {
+		r.Bad("util.fixYangRegexp:group-open:own-caret", c.Pos(f.Decl.Pos()), "for a pattern that starts with '^' fixYangRegexp never opens a group: `^a|b` becomes `^a|b$`, which accepts \"axyz\" and \"xyzb\" (anchors bind to the first and last alternative only)")
+	}
+}
+
+// ---- R-PREFIX-PAIR (C02) -----------------------------------------------------------------
+
+// rulePrefixPair: the prefix configured for TogNMINotifications is used consistently: leaf paths
+// are built below it, stripped of exactly it, and it is what the notification carries.
+func rulePrefixPair(c *Ctx, r *Report) {
+	r.Rule("R-PREFIX-PAIR", "TogNMINotifications builds every leaf path below one prefix value and hands the same value to leavesToNotifications; that function stores it (ToProto) in Notification.Prefix and adds every non-atomic leaf through addToNotification with the same prefix, which strips exactly that prefix (error returned) before the update path is formed; atomic subtrees carry their own full path as prefix", 6)
+	Y := P("ygot")
+	if f := c.MustFunc(r, "ygot", "TogNMINotifications"); f != nil {
+		info := f.Info()
+		var a, b types.Object
+		for _, call := range CallsIn(info, f.Decl.Body, Y+".findUpdatedLeaves") {
+			if len(call.Args) >= 3 {
+				a = ObjOf(info, call.Args[2])
+			}
+		}
+		for _, call := range CallsIn(info, f.Decl.Body, Y+".leavesToNotifications") {
+			if len(call.Args) >= 3 {
+				b = ObjOf(info, call.Args[2])
+			}
+		}
+		r.Check(a != nil && a == b, "ygot.TogNMINotifications:one-prefix", c.Pos(f.Decl.Pos()), "findUpdatedLeaves(…, pfx, …) and leavesToNotifications(…, pfx) receive the same variable",
+			"the prefix below which leaf paths are built is not the one leavesToNotifications strips and publishes: paths lose the wrong elements or stripping fails")
+		// its definitions come from the configuration's prefix fields.
+		okDef := a != nil
+		if a != nil {
+			for _, d := range allDefs(f, a) {
+				s := types.ExprString(d)
+				if !strings.Contains(s, "cfg.PathElemPrefix") && !strings.Contains(s, "cfg.StringSlicePrefix") {
+					okDef = false
+				}
+			}
+			if len(allDefs(f, a)) == 0 {
+				okDef = false
+			}
+		}
+		r.Check(okDef, "ygot.TogNMINotifications:prefix-from-config", c.Pos(f.Decl.Pos()), "prefix built from cfg.PathElemPrefix / cfg.StringSlicePrefix only", "the prefix is not (only) the one configured by the caller")
+	}
+	if f := c.MustFunc(r, "ygot", "leavesToNotifications"); f != nil {
+		info := f.Info()
+		ps := paramObjs(f)
+		if len(ps) < 3 {
+			r.Und("ygot.leavesToNotifications:signature", c.Pos(f.Decl.Pos()), "expected (leaves, ts, pfx)")
+			return
+		}
+		pfx := ps[2]
+		// n.Prefix = p where p := pfx.ToProto()
+		okPrefix := false
+		ast.Inspect(f.Decl.Body, func(n ast.Node) bool {
+			as, ok := n.(*ast.AssignStmt)
+			if !ok || len(as.Lhs) != 1 || len(as.Rhs) != 1 {
+				return true
+			}
+			sel, ok := as.Lhs[0].(*ast.SelectorExpr)
+			if !ok || sel.Sel.Name != "Prefix" {
+				return true
+			}
+			rhs := ast.Unparen(as.Rhs[0])
+			if id, ok := rhs.(*ast.Ident); ok {
+				if d := singleDef(f, info.ObjectOf(id)); d != nil {
+					rhs = ast.Unparen(d)
+				}
+			}
+			if call, ok := rhs.(*ast.CallExpr); ok && FullName(Callee(info, call)) == Y+".gnmiPath.ToProto" {
+				if s, ok := call.Fun.(*ast.SelectorExpr); ok && ObjOf(info, s.X) == pfx {
+					okPrefix = errTestedAfter(c, f, f.Decl.Body, call)
+				}
+			}
+			return true
+		})
+		r.Check(okPrefix, "ygot.leavesToNotifications:Prefix=pfx.ToProto()", c.Pos(f.Decl.Pos()), "Notification.Prefix is the prefix parameter's proto form (conversion error returned)", "the notification's Prefix is not the proto form of the prefix parameter")
+		calls := CallsIn(info, f.Decl.Body, Y+".addToNotification")
+		okAdd := len(calls) > 0
+		for _, call := range calls {
+			if len(call.Args) < 4 || ObjOf(info, call.Args[3]) != pfx {
+				okAdd = false
+			}
+		}
+		r.Check(okAdd, "ygot.leavesToNotifications:addToNotification(…, pfx)", c.Pos(f.Decl.Pos()), "every leaf is added with the prefix parameter", "a leaf is added with a prefix other than the one published in Notification.Prefix")
+		// atomic subtrees: the subtree's own path, checked to lie under the prefix.
+		okAtomic := false
+		for _, call := range CallsIn(info, f.Decl.Body, Y+".createAtomicNotif") {
+			if len(call.Args) >= 3 {
+				if id, ok := ast.Unparen(call.Args[2]).(*ast.Ident); ok {
+					if d := singleDef(f, info.ObjectOf(id)); d != nil && strings.HasSuffix(types.ExprString(d), ".p") {
+						okAtomic = true
+					}
+				}
+			}
+		}
+		r.Check(okAtomic, "ygot.leavesToNotifications:atomic-prefix=subtree-path", c.Pos(f.Decl.Pos()), "atomic notifications carry the subtree's full path as prefix", "atomic notifications no longer use the subtree's own path as prefix")
+	}
+	if f := c.MustFunc(r, "ygot", "addToNotification"); f != nil {
+		info := f.Info()
+		ps := paramObjs(f)
+		ok := false
+		var stripped types.Object
+		for _, call := range CallsIn(info, f.Decl.Body, Y+".gnmiPath.StripPrefix") {
+			if len(ps) >= 4 && len(call.Args) == 1 && ObjOf(info, call.Args[0]) == ps[3] && errTestedAfter(c, f, f.Decl.Body, call) {
+				ok = true
+				ast.Inspect(f.Decl.Body, func(n ast.Node) bool {
+					if as, isA := n.(*ast.AssignStmt); isA && len(as.Rhs) == 1 && as.Rhs[0] == ast.Expr(call) {
+						stripped = ObjOf(info, as.Lhs[0])
+					}
+					return true
+				})
+			}
+		}
+		r.Check(ok, "ygot.addToNotification:StripPrefix(pfx)", c.Pos(f.Decl.Pos()), "the leaf path is stripped of the prefix parameter, error returned", "addToNotification no longer strips the prefix parameter from the leaf path (or drops the error)")
+		// the Update's Path is the proto of the stripped path.
+		okPath := false
+		ast.Inspect(f.Decl.Body, func(n ast.Node) bool {
+			kv, isKV := n.(*ast.KeyValueExpr)
+			if !isKV || types.ExprString(kv.Key) != "Path" {
+				return true
+			}
+			if id, isID := ast.Unparen(kv.Value).(*ast.Ident); isID {
+				if d := singleDef(f, info.ObjectOf(id)); d != nil {
+					if call, isC := ast.Unparen(d).(*ast.CallExpr); isC && FullName(Callee(info, call)) == Y+".gnmiPath.ToProto" {
+						if s, isS := call.Fun.(*ast.SelectorExpr); isS && stripped != nil && ObjOf(info, s.X) == stripped {
+							okPath = true
+						}
+					}
+				}
+			}
+			return true
+		})
+		r.Check(okPath, "ygot.addToNotification:Update.Path=stripped.ToProto()", c.Pos(f.Decl.Pos()), "the update path is the stripped path", "the update's path is not the prefix-stripped leaf path: prefix + path no longer names the leaf")
+	}
+}
